@@ -30,6 +30,8 @@ MUTATORS = {"push_back", "push_front", "pop_back", "pop_front", "clear", "erase_
             "push_front_ref", "resize", "erase", "insert", "assign", "swap"}
 # functions whose contract is to modify an argument / the object they are a member of
 MUTATING_BY_CONTRACT = {("", "insert_at"), ("", "push_back"), ("", "back_inserter"), ("retro", "retro"), ("retro", "pop_back"), ("retro", "pop_front")}
+# functions whose contract is to hand back one of their arguments
+SELECTORS = {(None, "max", 2), (None, "min", 2)}
 SPEC = ["for_each", "map", "filter", "foldl", "reduce", "sum", "product", "any_of", "all_of", "contains", "find", "take", "take_while", "drop",
         "drop_while", "zip", "zip_with", "concat", "join", "reverse", "retro", "generate_range", "min", "max", "even", "odd", "ltrim", "rtrim",
         "trim", "to_string"]
@@ -500,6 +502,42 @@ def run(chk):
     rules["R17.1"].anchor(nloops >= 15, "loops in the prelude (found %d)" % nloops)
     rules["R17.1"].require(15, "loop-carrying functions")
     rules["R17.5"].require(50, "prelude functions")
+
+    # ------------------------------------------------------------------ R17.9 results are not the inputs themselves
+    r9 = chk.rule("R17.9", "no library function hands back one of its parameters (or `this`, or an alias of one) as its result: every result is a value of its own",
+                  "library functions leave their inputs unmodified: a caller that binds the result by reference and changes it does not change the argument")
+    nres = 0
+    for d in defs:
+        params = {p["name"] for p in d["params"]} | ({"this"} if d.get("cls") else set())
+        aliases = set(params)
+        for n in cp.walk(d["body"]):
+            if n.get("k") == "decl" and n.get("init") is not None and (n.get("op") == ":=" or n.get("ref")) and n["init"].get("k") == "id" and n["init"]["name"] in aliases:
+                aliases.add(n["name"])
+
+        def results(blk):
+            out = []
+            stmts = blk["s"] if blk.get("k") == "block" else [blk]
+            if stmts:
+                last = stmts[-1]
+                if last["k"] == "expr":
+                    out.append((last["e"], last.get("line", d["line"])))
+                elif last["k"] == "if":
+                    out += results(last["then"])
+                    if last.get("else") is not None:
+                        out += results(last["else"])
+                elif last["k"] == "block":
+                    out += results(last)
+            return out
+        res = results(d["body"]) + [(n["e"], n.get("line", d["line"])) for n in cp.walk(d["body"]) if n.get("k") == "return" and n.get("e") is not None]
+        nres += len(res)
+        bad = [(e["name"], ln) for e, ln in res if e.get("k") == "id" and e["name"] in aliases]
+        fnname = ("%s::" % d["cls"] if d.get("cls") else "") + d["name"] + "/%d" % len(d["params"])
+        if res and (d.get("cls"), d["name"], len(d["params"])) in SELECTORS:
+            r9.note("prelude %s selects one of its arguments by contract (like std::max / std::min): %s" % (fnname, sorted({b[0] for b in bad})))
+        elif res:
+            r9.ob("prelude %s: the result is not a parameter itself" % fnname, not bad, "%s:%d" % (relfile, first_line + (bad[0][1] if bad else d["line"]) - 1), "prelude:" + fnname,
+                  "returns its own argument `%s`: the caller's `var r := f(x); r += ..` modifies x" % (bad[0][0] if bad else ""))
+    r9.require(40, "functions with a result")
 
     # ------------------------------------------------------------------ R17.8 callback argument roles
     r8 = chk.rule("R17.8", "every application of a callback parameter - direct or through another library function the callback is handed to - passes the "
